@@ -139,12 +139,19 @@ def rule_shapes(ctx: Ctx, rep: Report) -> None:
     c0 = [c for c in own_nodes(co.node) if isinstance(c, ast.Call) and call_name(c) == "leaf_hash"]
     rep.ob(rule, "verifier:leaf_version_mask", bool(c0) and norm(c0[0].args[0]) == "control[0] & 254", co.where(), "leaf version = control[0] & 0xfe")
     rets = [n for n in own_nodes(co.node) if isinstance(n, ast.Return) and isinstance(n.value, ast.BoolOp)]
-    okr = bool(rets) and isinstance(rets[0].value.op, ast.And) and {norm(v) for v in rets[0].value.values} == {"Q[0] == int.from_bytes(q, 'big')", "control[0] & 1 == Q[1] % 2"}
+    okr = False
+    for r_ in rets:
+        if isinstance(r_.value.op, ast.And) and len(r_.value.values) == 2:
+            for a_, b_ in (r_.value.values, r_.value.values[::-1]):
+                mq: dict[str, str] = {}
+                okr |= PT.match(PT.compile_("$Q[0] == int.from_bytes(q, 'big')"), a_, mq) and (PT.match(PT.compile_("control[0] & 1 == $Q[1] % 2"), b_, mq) or PT.match(PT.compile_("control[0] & 1 == $Q[1] & 1"), b_, mq))
     rep.ob(rule, "verifier:x_and_parity", okr, co.where(), "accepts only if both the x-coordinate and the parity bit match")
     dl = [c for c in own_nodes(co.node) if isinstance(c, ast.Call) and call_name(c) == "tweak_add_check"]
     rep.ob(rule, "verifier:delegated_parity", bool(dl) and norm(dl[0].args[1]) == "control[0] & 1", co.where(), "the delegated check is handed the parity bit")
-    pb = [n for n in own_nodes(co.node) if isinstance(n, ast.Assign) and norm(n.targets[0]) == "p_bytes"]
-    rep.ob(rule, "verifier:internal_key_slice", bool(pb) and norm(pb[0].value) == "control[1:33]", co.where(), "internal key = control[1:33]")
+    mpb: dict[str, str] = {}
+    pb = PT.find(co.node, "$pb = control[1:33]", mpb)
+    tw = PT.find(co.node, "$t = _tap_tweak($pb, $k)", mpb)
+    rep.ob(rule, "verifier:internal_key_slice", pb is not None and tw is not None, co.where(pb), "internal key = control[1:33], and it is what the tweak commits to")
     pv = ctx.func(f"{T}._tweaked_prvkey")
     txt = PT.text(pv)
     rep.ob(rule, "prvkey:negated_iff_odd_y", "has_even_y = P[1] % 2 == 0" in txt and "internal_prvkey if has_even_y else secp256k1.n - internal_prvkey" in txt, pv.where(), "d := n - d exactly when the public point has odd y")
